@@ -52,7 +52,7 @@ func VerifC14IndexLen() {
 //verif:timeout 400 2400
 func VerifC14Slice() {
 	k := verifChoice("k", verifBound(4, 5))
-	s, rs := c14Str("c", k, verifBound(4, len(c14Alphabet)))
+	s, rs := c14Str("c", k, verifBound(3, len(c14Alphabet)))
 	a, b, st := c13Bound("start", 2), c13Bound("stop", 2), c13Bound("step", 2)
 	got, err := GetItem(s, NewSlice(a.obj, b.obj, st.obj))
 	verifReach("called")
@@ -142,7 +142,7 @@ func c14Method(name string) *Method {
 //verif:maxpaths 100000 1000000
 //verif:timeout 400 2400
 func VerifC14Find() {
-	k := 1 + verifChoice("k", verifBound(3, 4))
+	k := 1 + verifChoice("k", verifBound(2, 4))
 	s, rs := c14Str("c", k, c14SAlpha())
 	args, start, end, sub := c14SearchArgs(k)
 	got, err := c14Method("find").Call(s, args)
@@ -162,7 +162,7 @@ func VerifC14Find() {
 //verif:timeout 400 2400
 //verif:unwind 600 1000
 func VerifC14Count() {
-	k := 1 + verifChoice("k", verifBound(3, 4))
+	k := 1 + verifChoice("k", verifBound(2, 4))
 	s, rs := c14Str("c", k, c14SAlpha())
 	args, start, end, sub := c14SearchArgs(k)
 	got, err := c14Method("count").Call(s, args)
@@ -189,7 +189,7 @@ func VerifC14Count() {
 //verif:maxpaths 100000 1000000
 //verif:timeout 400 2400
 func VerifC14StartsEndsWith() {
-	k := 1 + verifChoice("k", verifBound(3, 4))
+	k := 1 + verifChoice("k", verifBound(2, 4))
 	s, rs := c14Str("c", k, c14SAlpha())
 	args, start, end, sub := c14SearchArgs(k)
 	ends := verifChoice("ends", 2) == 1
